@@ -1145,6 +1145,49 @@ def callable_results(ctx, node, fi: FuncInfo, env=None, depth=0):
             bm = dict(zip(params, node.args[1:]))
             bm.update({k.arg: k.value for k in node.keywords})
             return finish(t, bm, skip)
+        # an object of a repository class with __call__ (a callback object): what __call__ returns, with every `self.attr` replaced by
+        # the constructor argument that __init__ stores there
+        try:
+            cc = constructed_class(ctx, node, fi)
+        except AnalysisError:
+            cc = None
+        if cc is not None and not cc.module.generated:
+            call_m = ctx.prog.find_method(cc, '__call__')
+            init_m = ctx.prog.find_method(cc, '__init__')
+            if call_m is not None and len(call_m.params) == 2:
+                attrs = {}
+                if init_m is not None:
+                    try:
+                        b0 = bind_args(node, init_m, True)
+                    except AnalysisError:
+                        return None
+                    body0 = [s_ for s_ in init_m.node.body if not (isinstance(s_, ast.Expr) and isinstance(s_.value, ast.Constant))]
+                    for s_ in body0:
+                        if isinstance(s_, ast.Assign) and len(s_.targets) == 1 and isinstance(s_.targets[0], ast.Attribute) \
+                                and is_name(s_.targets[0].value, init_m.params[0]) and isinstance(s_.value, ast.Name) and s_.value.id in b0:
+                            attrs[s_.targets[0].attr] = b0[s_.value.id]
+                        else:
+                            return None      # a constructor that does more than store its arguments: not followed
+                self_p, q = call_m.params
+
+                class _SelfAttr(ast.NodeTransformer):
+                    def visit_Attribute(self, a_):
+                        if isinstance(a_.value, ast.Name) and a_.value.id == self_p and a_.attr in attrs:
+                            return clone(attrs[a_.attr])
+                        return self.generic_visit(a_)
+                out = []
+                for _, v, _sp in symex.returns(call_m):
+                    if v is None:
+                        continue
+                    # every use of the callback object itself must be a read of an attribute the constructor stored
+                    n_self = sum(1 for x in ast.walk(v) if isinstance(x, ast.Name) and x.id == self_p)
+                    n_attr = sum(1 for x in ast.walk(v) if isinstance(x, ast.Attribute) and isinstance(x.value, ast.Name) and x.value.id == self_p
+                                 and x.attr in attrs)
+                    if n_self != n_attr:
+                        return None
+                    v2 = _SelfAttr().visit(clone(v))
+                    out.append((q, G.substitute(v2, {k: w for k, w in env.items() if k != q}, recursive=False) if env else v2))
+                return out or None
         # a factory: the callable it returns, with the factory's parameters replaced by the arguments
         try:
             t, bound = _static_callee(ctx, node, fi)
